@@ -7,6 +7,7 @@ from hypothesis import strategies as st
 PLAIN = ['x0', 'x1', 'x2']
 COUNTERS = ['k0', 'k1']
 NAMES = PLAIN + COUNTERS
+ROOT = 'R'      # (sequential programs only) the database root object itself, oid 0, as one more plain object
 
 
 def op_strategy(nconn, weights='mixed'):
@@ -14,11 +15,11 @@ def op_strategy(nconn, weights='mixed'):
 
     def mk(kind):
         # (fresh strategy objects: one_of() collapses identical ones, which would undo the weighting)
-        name = st.sampled_from(NAMES)
+        name = st.sampled_from(NAMES + [ROOT])
         if kind in ('read', 'readcurrent'):
             return st.tuples(st.just(kind), c, name)
         if kind == 'write':
-            return st.tuples(st.just('write'), c, st.sampled_from(PLAIN))
+            return st.tuples(st.just('write'), c, st.sampled_from(PLAIN + [ROOT]))
         if kind == 'inc':
             return st.tuples(st.just('inc'), c, st.sampled_from(COUNTERS), st.integers(1, 5))
         return st.tuples(st.just(kind), c)
@@ -71,6 +72,9 @@ def populate(root):
         o.n = 0
         root[nme] = o
         st0[nme] = {'n': 0}
+    root['R_v'] = 0
+    root['R_from'] = None
+    st0[ROOT] = {'v': 0}
     return st0
 
 
@@ -103,7 +107,7 @@ class MWorld:
         c = self.db.open(tm)
         root = c.root()
         if 'x0' in root:
-            st0 = {nme: ({'n': 0} if nme in COUNTERS else {'v': 0}) for nme in NAMES}    # populated in the base
+            st0 = {nme: ({'n': 0} if nme in COUNTERS else {'v': 0}) for nme in NAMES + [ROOT]}    # populated in the base
         else:
             st0 = populate(root)
             tm.commit()
@@ -162,10 +166,15 @@ class MWorld:
                     break
         elif k == 'write':
             nme = op[2]
-            o = conn.root()[nme]
             self.wid += 1
-            o.v = self.wid
-            o.derived_from = o._p_serial
+            if nme == ROOT:
+                o = conn.root()
+                o['R_from'] = o._p_serial
+                o['R_v'] = self.wid
+            else:
+                o = conn.root()[nme]
+                o.v = self.wid
+                o.derived_from = o._p_serial
             if nme not in self.writes[c]:
                 self.base[c][nme] = self.value_at(nme, self.snap[c])[0]
             self.writes[c][nme] = {'v': self.wid}
@@ -178,7 +187,7 @@ class MWorld:
             self.writes[c][nme] = {'n': self.view(c, nme)['n'] + op[3]}
         elif k == 'readcurrent':
             nme = op[2]
-            o = conn.root()[nme]
+            o = conn.root() if nme == ROOT else conn.root()[nme]
             o._p_activate()
             conn.readCurrent(o)
             if nme not in self.readcur[c]:
@@ -210,8 +219,11 @@ class MWorld:
 
     def read(self, c, nme):
         exp = self.view(c, nme)
-        o = self.conns[c].root()[nme]
-        got = {'n': o.n} if nme in COUNTERS else {'v': o.v}
+        if nme == ROOT:
+            got = {'v': self.conns[c].root()['R_v']}
+        else:
+            o = self.conns[c].root()[nme]
+            got = {'n': o.n} if nme in COUNTERS else {'v': o.v}
         cur = self.value_at(nme, len(self.history))[1]
         if nme not in self.writes[c] and cur != exp:
             self.stale_reads += 1
